@@ -206,9 +206,23 @@ def safe_division_rule(rep):
                         in_body = any(child is x or child in ast.walk(x) for x in body)
                         other = orelse if in_body else body
                         oval = produced(other) if isinstance(anc, ast.If) else other[0]
+
+                        def all_zero(block):
+                            """every path through the branch produces a literal zero"""
+                            v = produced(block)
+                            if v is not None:
+                                if isinstance(v, ast.IfExp):
+                                    return literal_zero(v.body, a) and literal_zero(v.orelse, a)
+                                return literal_zero(v, a)
+                            if len(block) == 1 and isinstance(block[0], ast.If) \
+                                    and block[0].orelse:
+                                return all_zero(block[0].body) and all_zero(block[0].orelse)
+                            return False
                         if zt is not None:
                             good_side = (zt == "nonzero") == in_body
-                            if good_side and oval is not None and literal_zero(oval, a):
+                            zero_ok = (oval is not None and literal_zero(oval, a)) or (
+                                isinstance(anc, ast.If) and all_zero(other))
+                            if good_side and zero_ok:
                                 ok = True
                             else:
                                 why = (f"guard `{unparse(anc.test)}` does not pair the division "
@@ -335,5 +349,5 @@ def run(rep):
     raw_division_rule(rep)
     component_bypass(rep)
     rep.floor("reference-agreement", 60)
-    rep.floor("division-guard", 3)
+    rep.floor("division-guard", 2)
     rep.floor("riemann-table", 3)
